@@ -70,6 +70,14 @@ def pipelines(tier, seed):
         ("window_all", f"{D}.extend({{'t': 'x.sum()'}}, partition_by=1)"),
         ("join_on_pairs", f"{D}.natural_join(b={progs.K}, on=[('g', 'k')], jointype='right', check_all_common_keys_in_equi_spec=True)"),
         ("concat_names", f"{D}.concat_rows(b={progs.F}, id_column='which', a_name='left side', b_name=\"b'q\")"),
+        ("concat_id_table_name", f"{D}.concat_rows(b={progs.F}, id_column='table_name')"),
+        ("concat_id_source_name", f"{D}.concat_rows(b={progs.F}, id_column='source_name', a_name='b', b_name='a')"),
+        ("concat_defaults", f"{D}.concat_rows(b={progs.F})"),
+        ("concat_id_none", f"{D}.concat_rows(b={progs.F}, id_column=None)"),
+        ("join_defaults", f"{D}.natural_join(b={progs.E}, on=['g'], jointype='inner', check_all_common_keys_in_equi_spec=False)"),
+        ("order_defaults", f"{D}.order_rows(['x'], reverse=[], limit=None)"),
+        ("extend_partition_empty", f"{D}.extend({{'w': 'x + 1'}}, partition_by=[], order_by=[], reverse=[])"),
+        ("project_no_group", f"{D}.project({{'s': 'x.sum()'}}, group_by=[])"),
         ("order_limit0", f"{D}.order_rows(['g', 'x'], reverse=['g'], limit=0)"),
         ("project_const", f"{D}.project({{'c': '(1).sum()', 'm': 'x.max()'}}, group_by=['g'])"),
         ("map_swap_drop", f"{D}.map_columns({{'x': 'y', 'y': 'x'}}).drop_columns(['g'])"),
